@@ -67,6 +67,11 @@ def gen_cases(ctx, n):
                             dict(zone="A", name="c", t_supply=60.0, t_target=100.0, heat_flow=40.0, dt_cont=5.0, htc=1.0)],
                    utilities=[dict(name="CW", type="Cold", t_supply=30.0, t_target=30.0, heat_flow=0.0, dt_cont=5.0, htc=1.0, price=1.0)]),
               dict(zones=1, shapes=["D28"], regime="iso"))]                                                  # D28 witness
+    # D24 witness (open finding): a 0.00075 K wide hot stream served by an isothermal cold utility whose artificial 0.1 K glide is "long"
+    probs.append((dict(streams=[dict(zone="P0", name="S0_0", t_supply=175.0, t_target=174.99925, heat_flow=5.0, dt_cont=10.0, htc=1.0)],
+                       utilities=[dict(name="TopU", type="Hot", t_supply=155.0, t_target=155.0, heat_flow=0.0, dt_cont=10.0, htc=1.0, price=30.0),
+                                  dict(name="BotU", type="Cold", t_supply=159.99925, t_target=159.99925, heat_flow=0.0, dt_cont=5.0, htc=1.0, price=2.0)]),
+                  dict(zones=1, shapes=["D24"], regime="witness")))
     for i in range(n):
         if i % 6 == 0:
             probs.append(pc.gen_header_problem(ctx.rng))      # generation/use at nearly the same utility level
